@@ -39,6 +39,12 @@ CLAIMED = {
             "constructor argument and every zero-able block size in the constructor/verify universe is an obligation "
             "that is discharged structurally (dominating `?`-propagated range check) or reported. Overflow/shift/"
             "index panics and the serialise->parse identity are not decided.", "4/C18"),
+    "C17": ("CASTCHECK + PARAMCHECK + dominance ORDER of verification before use + ERRDISC on VerifyError in the "
+            "encoder entry points",
+            "Every narrowing cast of a public API argument, every length/byte-width argument of a fill, the "
+            "verification-before-use order in the frame and stream entry points and every Result<_, VerifyError> in "
+            "the encoder modules is an obligation decided on the MIR (dominating `?`-propagated checks). Hangs and "
+            "numeric behaviour of in-range values are not decided.", "4/C17"),
 }
 
 NA = {
